@@ -31,6 +31,17 @@ def run_generated(configs, judge, params, seeds=(0,), mode='rr', batch=100, resu
     """configs: list of dict(name, module, cfg, defs, workers, timeout)."""
     res = result or GenResult()
     for c in configs:
+        if c.get('model_only'):
+            t0 = time.time()
+            r = run_tlc(c['module'], c['cfg'], runcfg_module(c['defs'], extends=['Integers']), workers=c.get('workers', 8),
+                        timeout=c.get('timeout', 3600))
+            res.states += r['distinct']
+            res.transitions += max(r['generated'], 1)
+            res.runs.append({'name': c['name'], 'module': c['module'], 'distinct': r['distinct'], 'generated': r['generated'],
+                             'tlc_wall_s': round(r['wall_s'], 1), 'invariants': c.get('invariants', []), 'model_only': True})
+            if r['violated']:
+                res.model_violations.append((c['name'], r['violated'], r['out'][-3000:]))
+            continue
         farm = Farm(judge, dict(params, **c.get('params', {})), seeds=seeds, mode=mode)
 
         def consumer(fh, farm=farm):
